@@ -64,11 +64,20 @@ func (e *Env) FinishTerminating(name string) bool {
 }
 
 // KubeletAll: every pending pod becomes Running and Ready, every terminating pod goes away.
-func (e *Env) KubeletAll() {
+func (e *Env) KubeletAll() { e.KubeletSome(nil) }
+
+// KubeletSome: one round of kubelet progress. With seen == nil terminating pods finish at once; otherwise (a slower,
+// equally fair kubelet) a terminating pod finishes in the round after the one it was first seen terminating in, so that
+// one reconcile sees the pod it deleted still terminating. seen is keyed by pod uid.
+func (e *Env) KubeletSome(seen map[string]bool) {
 	for _, n := range e.api.Names(RPods) {
 		p := e.apiPod(n)
 		if p.DeletionTimestamp != nil {
-			e.api.Remove(RPods, n)
+			if seen == nil || seen[string(p.UID)] {
+				e.api.Remove(RPods, n)
+			} else {
+				seen[string(p.UID)] = true
+			}
 			continue
 		}
 		if p.Status.Phase == v1.PodPending {
